@@ -4,7 +4,8 @@
    the along/cross/radial triad of PosVelArray.trs2acr, azimuth/elevation/zenith distance of PositionArray.
    Part 2: the same entries as `Ival.rexpr` expressions (tied to part 1 by `*_expr_ok` lemmas in Proofs/C06_Rot.v,
    all by computation) and the check_* functions of the correspondence (verdict 0 = implementation agrees with the
-   specification model, 1 = unexplained difference, 2 = agrees with quirk c06_acr_1d_transposed switched on). *)
+   specification model, 1 = unexplained difference, 2 = agrees with quirk c06_acr_1d_transposed switched on, 3 = quirk
+   c06_elevation_nan_at_zenith). *)
 From Coq Require Import Reals ZArith QArith Qabs List Bool.
 From Verif Require Import Lib.Dyadic Lib.Atan2 Lib.Ival Lib.Vec3 Lib.Mat3.
 Import ListNotations.
@@ -348,12 +349,13 @@ Definition dy_abs_le (x bound : dy) : bool :=
   match dy_toQ x, dy_toQ bound with Some a, Some b => Qle_bool (Qabs a) b | _, _ => false end.
 
 (* azimuth: literally atan2(east, north) within 1e-11 rad modulo a turn; or (well conditioned form, also valid on the cut and
-   near the zenith): (east, north) is parallel to and points the same way as (sin az, cos az) within 1e-12 *)
+   near the zenith, where the azimuth is ill conditioned): the direction cosines (east, north) agree within 1e-12 with a vector
+   pointing along (sin az, cos az):  |sin az * north - cos az * east| <= 1e-12  and  sin az * east + cos az * north >= -1e-12 *)
 Definition check_az (env : nat -> I.type) (az : dy) : bool :=
   dy_abs_le az pi_d &&
   (check_close_mod2pi p128 tol_angle (EAtan2 (v_ 13) (v_ 14)) env az
    || (check_close p128 rel12 (ESub (EMul (s_ 8) (v_ 14)) (EMul (c_ 8) (v_ 13))) env (DZero false)
-       && check_le p128 zero_ (EAdd (EMul (s_ 8) (v_ 13)) (EMul (c_ 8) (v_ 14))) env)).
+       && check_le p128 (ENeg (EQ rel12)) (EAdd (EMul (s_ 8) (v_ 13)) (EMul (c_ 8) (v_ 14))) env)).
 
 (* elevation: asin(up) within 1e-11 rad; or (at the zenith/nadir where asin is ill conditioned) sin el = up within 1e-12 *)
 Definition check_el (env : nat -> I.type) (el : dy) : bool :=
@@ -368,7 +370,15 @@ Definition check_zd (el zd : dy) : bool :=
   | _, _, _ => false
   end.
 
+(* quirk c06_elevation_nan_at_zenith: the implementation's rounded projection on Up exceeds 1 by an ulp and arcsin gives NaN;
+   recognised only when the model's projection is within 1e-12 of +-1 *)
+Definition at_zenith_or_nadir (env : nat -> I.type) : bool :=
+  check_le p128 (ESub one_ (EQ rel12)) (EAbs (v_ 15)) env.
+
 Definition check_azel (c : dy * dy * list dy * list dy * dy * dy * dy) : Z :=
   let '(lat, lon, pp, oo, az, el, zd) := c in
   let env := env_I (azel_env p128 lat lon pp oo az el) in
-  verdict (well3 pp && well3 oo && check_az env az && check_el env el && check_zd el zd).
+  if negb (well3 pp && well3 oo && check_az env az) then 1%Z
+  else if check_el env el && check_zd el zd then 0%Z
+  else if is_nan el && is_nan zd && at_zenith_or_nadir env then 3%Z
+  else 1%Z.
